@@ -38,3 +38,38 @@ func VP_C09_dynbt() {
 	}
 	vp.Cover("end")
 }
+
+type vpFailWriter struct {
+	b     []byte
+	limit int
+}
+
+func (w *vpFailWriter) Write(p []byte) (int, error) {
+	room := w.limit - len(w.b)
+	if room >= len(p) {
+		w.b = append(w.b, p...)
+		return len(p), nil
+	}
+	if room < 0 {
+		room = 0
+	}
+	w.b = append(w.b, p[:room]...)
+	return room, vpErrInjected
+}
+
+// dynbt.Value.MarshalNBT reports a failing writer at every offset.
+func VP_C09_failwrite_dynbt() {
+	tag := byte(1 + vp.Choice(12))
+	budget := 2 + vp.Tier()
+	b := vp.GenNBT(nil, tag, 0, &budget)
+	vp.SizeBound(len(b) + 1)
+	var v Value
+	vp.Assume(v.UnmarshalNBT(tag, &vpByteReader{b: b, fail: -1}) == nil)
+	// failure offsets: the first bytes, the middle and the last byte
+	ks := []int{0, len(b) / 2, len(b) - 1}
+	k := ks[vp.Choice(len(ks))]
+	vp.Assume(k >= 0 && k < len(b))
+	w := &vpFailWriter{limit: k}
+	vp.Assert(v.MarshalNBT(w) != nil, "write failure is reported")
+	vp.Cover("end")
+}
